@@ -264,6 +264,9 @@ class Generator(ABC):
 
         def comment_filter(content: str):
             output = ""
+            # characters that str.splitlines() - and with it Jinja's indent filter - treats as line breaks would start a line
+            # without the comment prefix: they are not line breaks of the documentation text
+            content = re.sub('[\r\x0b\x0c\x1c\x1d\x1e\x85\u2028\u2029]', ' ', content)
             if self.comment_end_string is not None:
                 # the documentation text must not be able to terminate the generated block comment
                 content = content.replace(self.comment_end_string.strip(), "*&#47;")
